@@ -295,6 +295,9 @@ add(
 
 # ================= serialization ==================================================================
 add(
+    H("u_int_widths_reach_itoa", "main", ["C08", "C05"], ["Serializer::serialize_{i,u}{8,16,32,64,128}", "MapKeySerializer::serialize_{i,u}{8..128}", "Formatter::write_{i,u}{8..128}"],
+      "every width x every value x {value position, map key}: the digit generator receives the same value of the same width and its text is what is written (between quotes for a key)",
+      stubs=["cut: itoa::Buffer::format -> recorder returning \"7\" (itoa's digit generation is a trusted dependency)"], cost=30, native_replay=False),
     H("u_map_key_char_goes_through_escaper", "main", ["C05"], ["MapKeySerializer::serialize_char", "Serializer::serialize_str", "Formatter::write_string_fast (routing)"],
       "every char: the key reaches format_string as its UTF-8 bytes with need_quote, and nothing else is written", stubs=["cut: util::string::format_string -> recorder (the escaper is decided by the U-format harnesses)"], cost=20, native_replay=False),
     H("k_float_nonfinite_null", "main", ["C05", "C08"], ["Serializer::serialize_f64", "Serializer::serialize_f32", "Formatter::write_null/write_f64/write_f32"],
@@ -335,16 +338,16 @@ add(
 # crate "smt": decided by z3/cvc5 on linear integer arithmetic generated from `rustc -Zunpretty=mir`
 # of the scratch copy; `args` go to smt/float_check.py
 SMT_FUNCS = ["sonic_number::parse_float (guards, sign, routing, finiteness check)", "sonic_number::parse_float_fast (one IEEE operation on exact operands)", "sonic_number::parse_floating_normal_fast", "sonic_number::lemire::full_multiplication",
-             "sonic_number::lemire::compute_float::<f64> (Eisel-Lemire) for exponents >= -290", "lemire::compute_product_approx", "lemire::power", "BiasedFp::zero_pow2",
+             "sonic_number::lemire::compute_float::<f64> (Eisel-Lemire; for exponents <= -308 per value of leading_zeros(w), subnormal results included)", "lemire::compute_product_approx", "lemire::power", "BiasedFp::zero_pow2",
              "sonic_number::biased_fp_to_float::<f64>", "POWER_OF_FIVE_128 (from the compiler's allocation dump)", "impl RawFloat for f64 (associated constants, from the MIR)"]
-SMT_CUTS = ["opaque (paths through them are outside the claim and counted): slow::parse_long_mantissa, compute_float for exponents < -290 (subnormal results)",
+SMT_CUTS = ["opaque (paths through it are outside the claim and counted): slow::parse_long_mantissa (the fallback when Eisel-Lemire does not answer)",
             "model: one f64 multiplication/division of exactly known operands returns the double nearest to the exact result (IEEE 754); exactness of an operand (an integer of magnitude <= 2^53, a literal) is proved from the path constraints",
             "assumption: 1 <= significand < 10^19 and trunc == false (what parse_number passes when no digit was dropped)",
             "model: x << leading_zeros(x) as a fresh normalised n with lz free (over-approximation); counterexamples are made exact by pinning lz before replay",
             "dev-profile overflow assertion at `add + 1` (parse_floating_normal_fast bb23) is not decided by either solver and is not claimed"]
 _b = ",".join(str(e) for e in list(range(-312, -299)) + list(range(-24, -20)) + list(range(21, 25)) + list(range(36, 40)) + list(range(280, 296)))
 _s = ",".join(str(e) for e in sorted(set(range(-344, 346, 16)) | set(range(-6, 25))))
-_L = "--lemire=-290..345"
+_L = "--lemire=-345..345"
 add(
     H("s_float_fast_bounds", "smt", ["C02", "C07", "C08"], SMT_FUNCS,
       "decimal exponents -312..=-300 and 280..=295 (both ends of the table-product guard), -24..=-21, 21..=24 and 36..=39 (the ends of the one-operation path) x every significand 1 <= w < 10^19 x sign; 20 s per query",
